@@ -34,7 +34,7 @@ META = {
                   "three classes: both full rank, rank-deficient first argument (finite), support mismatch (documented: inf). "
                   "TensorFlow is not installed; sqrt_matrix_sparse is only driven on well-conditioned positive-definite matrices.",
     "shards": {"quick": 2, "thorough": 16},
-    "budget_s": {"quick": 100, "thorough": 480},
+    "budget_s": {"quick": 100, "thorough": 300},
     "min_evals": {"quick": 3000, "thorough": 60000},
     "min_nontrivial": {"quick": 200, "thorough": 4000},
     "deciding": ["qinfo.contract", "qinfo.entropy", "qinfo.pair", "qinfo.expand", "qinfo.misc"],
